@@ -239,6 +239,52 @@ func main() {
 		}
 		expect("ticker-advance", err == nil && len(found) == 0, "err=%v %s", err, d)
 	}
+	// 10. a timer that is already due fires without waiting for idleness; AdvanceRacing lets a due timer race with the caller
+	{
+		sc := &vsched.Scenario{Name: "due-timer", Body: func() {
+			vsched.Explore(true)
+			c := vtime.After(-time.Second)
+			got := false
+			vsched.Go("waiter", func() {
+				vsched.Recv(c)
+				got = true
+				vsched.Emit("timer-received")
+			})
+			// the root stays runnable: with idle-only firing the waiter could never run before the root's next events
+			vsched.Point("root-1")
+			vsched.Point("root-2")
+			vsched.Emit(fmt.Sprintf("root-done got=%v", got))
+			d := vtime.After(5 * time.Second)
+			vsched.Go("waiter2", func() {
+				vsched.Recv(d)
+				vsched.Emit("late-timer-received")
+			})
+			vsched.Quiesce()
+			vsched.AdvanceRacing(5 * time.Second)
+			vsched.Point("root-after-race")
+			vsched.Emit("root-after-racing-advance")
+			vsched.Quiesce()
+		}}
+		st, _, err := vsched.ExploreScenario(sc, vsched.Options{Bound: 2})
+		// some schedule must deliver the due timer before the root is done, and some schedule must run the root's
+		// next event before the woken waiter
+		expect("due-timer", err == nil && len(st.Traces) >= 4, "executions=%d distinct traces=%d err=%v", st.Executions, len(st.Traces), err)
+	}
+	// 11. only an unread ticker remains: the execution ends as a deadlock instead of running forever
+	{
+		sc := &vsched.Scenario{Name: "fruitless-ticker", Body: func() {
+			_ = vtime.NewTicker(time.Second)
+			block := make(chan struct{})
+			vsched.Recv(block)
+		}, Check: func(r *vsched.Result) []vsched.Issue {
+			if r.Deadlock {
+				return []vsched.Issue{{Clause: "deadlock", Disc: "x", Detail: "deadlock"}}
+			}
+			return nil
+		}}
+		_, found, err := vsched.ExploreScenario(sc, vsched.Options{Bound: 0})
+		expect("fruitless-ticker", err == nil && len(found) == 1, "found=%d err=%v", len(found), err)
+	}
 	if failed {
 		os.Exit(2)
 	}
